@@ -177,6 +177,9 @@ class Path(typing.Generic[H]):
         try:
             self.relative_to(*other)
             return True
+        except tbot.error.WrongHostError:
+            # (also a ValueError, but not an answer to the question)
+            raise
         except ValueError:
             return False
 
